@@ -515,7 +515,38 @@ def rm1_first_match(ctx, flavours):
                 for c in term_calls(idx):
                     if c[1].endswith('as std::iter::Iterator>::next') or c[1] == 'std::iter::Iterator::next':
                         chain = c
-                if chain is None:
+                pos = [c for c in term_calls(idx) if c[1].endswith('Iterator>::position') or c[1] == 'std::iter::Iterator::position']
+                if chain is None and pos:
+                    # accepted idiom (b): idx = list.iter().position(|e| key(upgrade(e.0)) == key)  -- forward first match by definition of position()
+                    pc = pos[0]
+                    src_names = [c[1] for c in term_calls(pc[2][0])]
+                    if not any(x.endswith(']::iter') or x.endswith('Vec::iter') for x in src_names) or any(re.search(r'::(rev|skip|step_by|take|filter|skip_while|enumerate)$', x) for x in src_names):
+                        why.append('position() is not applied to a plain forward iteration of the list: ' + pretty(pc[2][0]))
+                    if not term_mentions(pc[2][0], lambda z: z == ('f', P1_, f)):
+                        why.append('scan runs over a different list than the one removed from')
+                    clo = pc[2][1] if len(pc[2]) > 1 else None
+                    cb = F.bodies.get(clo[1][len('closure:'):]) if isinstance(clo, tuple) and clo[0] == 'aggr' and clo[1].startswith('closure:') else None
+                    if cb is None or [deep_unwrap(x) for x in clo[2]] != [P2_]:
+                        why.append('position() predicate is not a closure over the key argument')
+                    else:
+                        ct = F.prov(cb).of_local(0)
+                        okc = False
+                        if isinstance(ct, tuple) and ct[0] == 'call' and (ct[1] == 'std::cmp::PartialEq::eq' or ct[1].endswith('PartialEq<&B>>::eq')):
+                            a0, a1 = [deep_unwrap(x) for x in ct[2][:2]]
+                            for x, y in ((a0, a1), (a1, a0)):
+                                up = [c for c in term_calls(x) if c[1].endswith('::WeakNode::upgrade')] if isinstance(x, tuple) else []
+                                if y == ('f', P1_, '0') and up and x == key_of(deep_unwrap(up[0])) and deep_unwrap(up[0][2][0]) == ('f', P2_, '0'):
+                                    okc = True
+                        if not okc:
+                            why.append('position() predicate is %s, expected key(peer of entry) == key argument' % pretty(ct))
+                    if unwrap_payload(idx) != pc and deep_unwrap(idx) != deep_unwrap(pc):
+                        # idx must be the payload of the position() result (through ok_or / ? / match)
+                        inner = deep_unwrap(idx)
+                        while isinstance(inner, tuple) and inner and inner[0] == 'call' and inner[1].split('::')[-1] in ('branch', 'ok_or', 'ok_or_else', 'unwrap', 'expect', 'ok') and inner[2]:
+                            inner = deep_unwrap(inner[2][0])
+                        if inner != deep_unwrap(pc):
+                            why.append('removal index %s is not the position found' % pretty(idx))
+                elif chain is None:
                     why.append('removal index %s does not come from the scan' % pretty(idx))
                 else:
                     names = [c[1] for c in term_calls(chain[2][0])] if chain[2] else []
